@@ -392,14 +392,31 @@ class Scenario(object):
             c.log(t='bounce_made', id=m, rcpts=pos, rid=rid_of(reply), none=False, now=c.now())
             return b
         self.bounces = {}
+        # a separate queue for bounces, as an application configures it: 'late' = every object is constructed first and
+        # started afterwards (the bounce queue is a Greenlet that has not been started when the main queue is given it),
+        # 'early' = it is already running
+        self.bq = None
+        sb = cfg.get('sep_bounce')
+        if sb:
+            from slimta.queue.dict import DictStorage
+
+            class _Sink(Relay):
+                def attempt(self, envelope, attempts):
+                    return None
+            self.bq = Queue(DictStorage(), _Sink())
+            if sb == 'early':
+                self.bq.start()
         self.q = Queue(self.store, self.relay, backoff=backoff, bounce_factory=factory,
-                       store_pool=cfg.get('store_pool'), relay_pool=cfg.get('relay_pool'))
+                       store_pool=cfg.get('store_pool'), relay_pool=cfg.get('relay_pool'), bounce_queue=self.bq)
+        if sb == 'late':
+            self.bq.start()
         if cfg.get('split'):
             from slimta.policy.split import RecipientSplit
             self.q.add_policy(RecipientSplit())
         real_enqueue = self.q.enqueue
+        want = 'configured' if self.bq is not None else 'self'
 
-        def enqueue(env):
+        def enqueue(env, via='self'):
             b = self.bounces.get(id_(env))
             if b is not None:
                 m, pos, reply, orig = b
@@ -411,11 +428,16 @@ class Scenario(object):
                       quotes_reply=(reply.message or '').encode() in whole and reply.code.encode() in whole,
                       has_headers=ohdr.rstrip(b'\r\n') in whole,
                       has_body=(obody in whole), headers_only=bool(cfg.get('headers_only', False)),
-                      names=all(a.encode() in whole for a in env_rcpts(orig)), now=c.now())
+                      names=all(a.encode() in whole for a in env_rcpts(orig)), via=via, want=want, now=c.now())
+            if via == 'configured':
+                return bq_enqueue(env)
             res = real_enqueue(env)
             c.log(t='enq_ret', msg=0, ids=[c.sid(i) if not isinstance(i, BaseException) else 0 for _, i in res], now=c.now())
             return res
         self.q.enqueue = enqueue
+        if self.bq is not None:
+            bq_enqueue = self.bq.enqueue
+            self.bq.enqueue = lambda env: enqueue(env, via='configured')
         self.pending_msgs = list(range(1, cfg.get('nmsgs', 1) + 1))
         self.flushes = cfg.get('flush', 0)
         self.announces = 2 if cfg.get('announce') else 0
@@ -604,6 +626,8 @@ class Scenario(object):
             signal.setitimer(signal.ITIMER_REAL, 0)
             try:
                 self.q.kill()
+                if self.bq is not None:
+                    self.bq.kill()
                 for g in self.greenlets:
                     g.kill(block=False)
                 for s in list(c.parked):
